@@ -98,8 +98,8 @@ fn build_config(c: &str) -> Configuration {
     json5::from_str::<Configuration>(&config_text(c)).expect("driver configuration must be valid")
 }
 
-fn options(c: &str) -> Options {
-    Options::new("src").with_output("out").with_configuration(build_config(c))
+fn options(c: &str, outsp: &str) -> Options {
+    Options::new("src").with_output(outsp).with_configuration(build_config(c))
 }
 
 /// {name -> stamp} read back from the output tree: version marker of the source, configuration marker,
@@ -176,9 +176,11 @@ struct World {
     resources: Resources,
     tree: Option<WorkerTree>,
     cfg: String,
+    /// the output location as typed (`out`, `./out`, ...): every spelling names the directory out/
+    outsp: String,
 }
 
-fn fresh_world(u: &Universe, c0: &str) -> World {
+fn fresh_world(u: &Universe, c0: &str, outsp: &str) -> World {
     let resources = Resources::from_memory();
     let mut files = BTreeMap::new();
     for f in u.sources.iter().chain(u.modules.iter()) {
@@ -188,7 +190,7 @@ fn fresh_world(u: &Universe, c0: &str) -> World {
     for (p, c) in FOREIGN.iter() {
         resources.write(*p, c).unwrap();
     }
-    World { files, resources, tree: None, cfg: c0.to_string() }
+    World { files, resources, tree: None, cfg: c0.to_string(), outsp: outsp.to_string() }
 }
 
 /// what a run from scratch over the current inputs and configuration writes
@@ -200,7 +202,7 @@ fn fresh_run(u: &Universe, w: &World) -> (Value, bool) {
     for (p, c) in FOREIGN.iter() {
         resources.write(*p, c).unwrap();
     }
-    let r = guarded(|| darklua_core::process(&resources, options(&w.cfg)));
+    let r = guarded(|| darklua_core::process(&resources, options(&w.cfg, &w.outsp)));
     let ok = matches!(r, Ok(Ok(_)));
     (snapshot(u, &resources), ok)
 }
@@ -228,7 +230,7 @@ fn apply(u: &Universe, w: &mut World, e: &Value) -> Result<Value, String> {
             w.files.insert(f.to_string(), v);
             w.resources.write(path_of(f), &content(u, f, v)).unwrap();
             if let Some(tree) = w.tree.as_mut() {
-                let opts = options(&w.cfg);
+                let opts = options(&w.cfg, &w.outsp);
                 let res = &w.resources;
                 guarded(|| tree.collect_work(res, &opts))?.map_err(|e| format!("collect_work error: {}", e))?;
             }
@@ -258,7 +260,7 @@ fn apply(u: &Universe, w: &mut World, e: &Value) -> Result<Value, String> {
             w.cfg = e["c"].as_str().unwrap().to_string();
         }
         "process" => {
-            let opts = options(&w.cfg);
+            let opts = options(&w.cfg, &w.outsp);
             let res = &w.resources;
             let mut errors = 0usize;
             if w.tree.is_none() {
@@ -306,7 +308,7 @@ pub fn main(args: &[String]) -> i32 {
     let u = read_universe(&rows[0]);
     for h in rows.iter().skip(1) {
         let c0 = h["c0"].as_str().unwrap();
-        let mut w = fresh_world(&u, c0);
+        let mut w = fresh_world(&u, c0, h["outsp"].as_str().unwrap_or("out"));
         out.emit(&json!({"ev": "reset", "id": h["id"], "c": c0}));
         for e in h["events"].as_array().unwrap() {
             match apply(&u, &mut w, e) {
